@@ -4,6 +4,7 @@ import (
 	"context"
 	"errors"
 	"fmt"
+	"reflect"
 	"sort"
 	"time"
 
@@ -49,7 +50,39 @@ func valEq(generic bool, got, want interface{}) bool {
 		return gstr(got) == gstr(want)
 	}
 
-	return got == want
+	return reflect.DeepEqual(got, want)
+}
+
+// sliceVal is a value type that cannot be compared with == (a panic if the library tries).
+type sliceVal struct {
+	B []byte
+	S string
+}
+
+// value returns a fresh unique value for key; for interface{} backends now and then one of an
+// uncomparable dynamic type (slice, map, struct holding a slice): "values" are opaque to a cache.
+func (d *mapDriver) value(key []byte) interface{} {
+	tok := d.token(key)
+	if d.be.Generic() {
+		return tok
+	}
+
+	switch d.c.Weighted("valshape", 6, 1, 1, 1) {
+	case 1:
+		d.c.Class("value=slice")
+
+		return []string{tok}
+	case 2:
+		d.c.Class("value=map")
+
+		return map[string]int{tok: d.ntk}
+	case 3:
+		d.c.Class("value=struct-with-slice")
+
+		return sliceVal{B: []byte(tok), S: tok}
+	}
+
+	return tok
 }
 
 func ttlCtx(ttl time.Duration) context.Context {
